@@ -70,7 +70,7 @@ case "${1:-}" in
             CODE=$?
           fi
           ;;
-        C04|C05|C06|C11|C14)
+        C04|C05|C06|C07|C11|C13|C14)
           /verif/tools/fuzz_phase.sh "$ID" "${NFV_FUZZ_PLAN_RUNS:-1000000}" 16 fuzz_plan
           CODE=$?
           ;;
